@@ -3,6 +3,7 @@
 -/
 import SV.Proofs.Engine
 import SV.Proofs.Stateful
+import SV.Proofs.StatefulMachine
 import SV.Model.Plan
 import SV.Proofs.Plan
 import SV.Generated.Engine
@@ -165,5 +166,45 @@ open SV.Model.Stateful SV.Proofs.Stateful in
 theorem stateful_suites_bracketed (k : Nat) (suites : List Suite) (h : ∀ s ∈ suites, noSuiteEvents s.scen = true)
     (hne : suites ≠ []) : suitesWf none (threadEvents k suites) = true :=
   threadEvents_wf k suites h hne
+
+
+/-! ### the stateful phase, scenarios included: the instrumented state machine under every Hypothesis behaviour -/
+
+open SV.Model.SM SV.Spec.SM in
+/-- **Everything the stateful thread puts is well nested, for every environment.**  Whatever scenarios Hypothesis
+    decides to run in whichever iteration (machines whose construction fails, steps that pass, fail checks, hit errors,
+    are interrupted, are cut short by a stop request or by the unique-input cache; runs that end normally, with a
+    failure group, flaky, unsatisfiable, with an internal error, with Ctrl-C or another BaseException), whatever the API
+    answers and the checks raise: the events are accepted by the reference automaton `wfRun` — suites strictly one after
+    the other, every scenario opened inside a suite and closed under its own identifier before anything else happens in
+    that suite and before the suite is closed, `Interrupted` / `NonFatalError` only inside a suite and outside a
+    scenario — and scenario identifiers are fresh (`idsFrom`). -/
+theorem stateful_thread_wellformed (v : SV.Model.SM.Variant) (runs : List Run) (m0 : MSt) (h0 : m0.out = []) :
+    wfRun (none, none) (thread v 0 m0 runs).out = some (none, none) ∧
+    idsFrom m0.nextId (thread v 0 m0 runs).out = some (thread v 0 m0 runs).nextId := by
+  obtain ⟨evs, hp, hw, hi⟩ := SV.Proofs.SM.thread_wf v 0 m0 runs
+  unfold SV.Proofs.SM.Puts at hp
+  rw [h0, List.nil_append] at hp
+  rw [hp]
+  exact ⟨hw, hi⟩
+
+open SV.Model.SM SV.Spec.SM in
+/-- non-vacuity: two iterations — a failing scenario and an errored one (then Flaky), then a clean run — give a stream
+    of two bracketed suites with three scenarios -/
+example :
+    (thread .repaired 0 {} [⟨[⟨false, [⟨1, false, .responds [.fail [7]]⟩]⟩, ⟨false, [⟨2, false, .raises⟩]⟩], .flaky, false⟩,
+                            ⟨[⟨false, [⟨1, false, .responds [.fail [7]]⟩]⟩], .ok, false⟩]).out =
+      [.suiteStarted 0, .scenStarted 1, .scenFinished 1 .failure, .scenStarted 2, .scenFinished 2 .error, .suiteFinished 0 .failure,
+       .suiteStarted 1, .scenStarted 3, .scenFinished 3 .success, .suiteFinished 1 .success] := by
+  decide
+
+open SV.Model.SM SV.Spec.SM in
+/-- **Recorded finding F18d, as a theorem about the model:** "a phase is at least as bad as its worst scenario" fails in
+    the stateful phase when an error does not repeat on replay — the errored scenario sits in a suite closed as FAILURE.
+    (Holds for both variants of the Flaky arm whenever the suite also saw a check failure.) -/
+theorem stateful_status_monotone_full_false :
+    ∃ runs : List Run, (SV.Model.Stateful.SEv.scenFinished 2 .error) ∈ (thread .asFound 0 {} runs).out ∧
+      (SV.Model.Stateful.SEv.suiteFinished 0 .failure) ∈ (thread .asFound 0 {} runs).out ∧ Status.rank .failure < Status.rank .error :=
+  ⟨[⟨[⟨false, [⟨1, false, .responds [.fail [7]]⟩]⟩, ⟨false, [⟨2, false, .raises⟩]⟩], .flaky, false⟩, ⟨[], .ok, false⟩], by decide⟩
 
 end SV.Props.C11
